@@ -189,6 +189,7 @@ class World:
         e = self.engine(mode)
         e.dispose()
         if mode != "memory":
+            os.makedirs(os.path.dirname(e._vf_path), exist_ok=True)
             for suffix in ("", "-journal", "-wal", "-shm"):
                 try:
                     os.unlink(e._vf_path + suffix)
@@ -683,6 +684,18 @@ class Run:
         except Exception:
             pass
         _FConn.plan = None
+        if self.mode != "memory":
+            # pool workers leave through os._exit (no atexit): remove the scratch database with the replica
+            self.engine.dispose()
+            for suffix in ("", "-journal", "-wal", "-shm"):
+                try:
+                    os.unlink(self.engine._vf_path + suffix)
+                except OSError:
+                    pass
+            try:
+                os.rmdir(os.path.dirname(self.engine._vf_path))
+            except OSError:
+                pass
 
     # -- ops
     def apply(self, op):
